@@ -341,18 +341,24 @@ def r5(ctx, modname):
         c = sts[0].value
         ci = ctx.repo.resolve_class(m, c.func)
         kw = {x.arg: norm_text(x.value) for x in c.keywords}
-        ok = norm_text(sts[0].targets[0]) == f"self._air_conditioners[{v}.ac_number]" and ci is not None and ci.name == g["ac_cls"] and kw.get("ac_number") == f"{v}.ac_number" and kw.get("zones") == "ac_zones" and kw.get("ac_ability") == v and kw.get("socket") == "self._socket"
-    ctx.check(ok, R, f"{gen}:ability:ac-construction", m, lp, f"self._air_conditioners[{v}.ac_number] = {g['ac_cls']}(ac_number={v}.ac_number, zones=ac_zones, ac_ability={v}, socket=self._socket)", norm_text(sts[0])[:200] if sts else "missing")
-    # zone association
-    assigns = [x for x in ast.walk(lp) if isinstance(x, ast.Assign) and dotted(x.targets[0]) == "ac_zones"]
+        zones_kw = next((x.value for x in c.keywords if x.arg == "zones"), None)
+        zones_name = zones_kw.id if isinstance(zones_kw, ast.Name) else None
+        ok = norm_text(sts[0].targets[0]) == f"self._air_conditioners[{v}.ac_number]" and ci is not None and ci.name == g["ac_cls"] and kw.get("ac_number") == f"{v}.ac_number" and zones_kw is not None and kw.get("ac_ability") == v and kw.get("socket") == "self._socket"
+    ctx.check(ok, R, f"{gen}:ability:ac-construction", m, lp, f"self._air_conditioners[{v}.ac_number] = {g['ac_cls']}(ac_number={v}.ac_number, zones=<the AC's zones>, ac_ability={v}, socket=self._socket)", norm_text(sts[0])[:200] if sts else "missing")
+    if not ok:
+        return
+    # zone association: the value that reaches zones=
+    assigns = [x for x in ast.walk(lp) if isinstance(x, ast.Assign) and zones_name and dotted(x.targets[0]) == zones_name]
     if gen == "at5":
-        ok = len(assigns) == 1 and isinstance(assigns[0].value, ast.ListComp)
+        at = f.node_of(sts[0])
+        zv = f.expand(zones_kw, at) if at is not None else zones_kw
+        ok = isinstance(zv, ast.ListComp)
         rng_ok, txt = (False, "")
         if ok:
-            lc = assigns[0].value
+            lc = zv
             rng_ok, txt = _range_shape(ctx, m, lc.generators[0].iter, v)
             ok = rng_ok and norm_text(lc.elt) == f"self._zones[{lc.generators[0].target.id}]" and not lc.generators[0].ifs
-        ctx.check(ok, R, "at5:ability:zones=range(start, start+count)", m, lp, f"ac_zones = [self._zones[i] for i in range({v}.start_zone, {v}.start_zone + {v}.zone_count)]", txt or (norm_text(assigns[0]) if assigns else "missing"))
+        ctx.check(ok, R, "at5:ability:zones=range(start, start+count)", m, lp, f"ac_zones = [self._zones[i] for i in range({v}.start_zone, {v}.start_zone + {v}.zone_count)]", txt or norm_text(zv)[:160])
     else:
         top = [s for s in lp.body if isinstance(s, ast.If)]
         ctx.require(len(top) >= 1, f"{m.relpath}: AT4 ability association is no longer an if/elif/else chain")
